@@ -1961,6 +1961,7 @@ class Recipe:
         self.current_stage_start = 0
         self.locked = False
         self.used = set()
+        self.new_names: dict[str, str] = {}  # names that dilute steps will give to declared containers
 
     def start_stage(self, name: str) -> None:
         """
@@ -2024,7 +2025,7 @@ class Recipe:
                 raise TypeError("Invalid type.")
         names = [elem.name for elem in objects]
         for name in names:
-            if name in self.results or names.count(name) > 1:
+            if name in self.results or names.count(name) > 1 or name in self.new_names.values():
                 raise ValueError(f"An object with the name: \"{name}\" is already in use.")
         for elem in objects:
             self.results[elem.name] = deepcopy(elem)
@@ -2268,7 +2269,9 @@ class Recipe:
             raise TypeError("Destination must be a container.")
         if self._undeclared(destination):
             raise ValueError(f"Destination {destination.name} has not been previously declared for use.")
-        if new_name and new_name != destination.name and new_name in self.results:
+        if new_name and new_name != destination.name and (
+                new_name in self.results or
+                any(name != destination.name and taken == new_name for name, taken in self.new_names.items())):
             raise ValueError(f"An object with the name: \"{new_name}\" is already in use.")
         # if solute not in destination.contents:
         #     raise ValueError(f"Container does not contain {solute.name}.")
@@ -2281,6 +2284,8 @@ class Recipe:
             # TODO: Support this.
             raise ValueError("Not currently supported.")
 
+        if new_name:
+            self.new_names[destination.name] = new_name
         self.steps.append(RecipeStep(self, 'dilute', None, destination, solute, concentration, solvent, new_name))
 
     def fill_to(self, destination: Container | Plate | PlateSlicer, solvent: Substance, quantity: str) -> None:
